@@ -1,5 +1,6 @@
 import TxVerif.Props.C04
 import TxVerif.Tie.Skeleton
+import TxVerif.Props.C04C07Engine
 open TxVerif
 #print axioms alloc_fresh_c04
 #print axioms alloc_not_in_use
@@ -7,3 +8,9 @@ open TxVerif
 #print axioms alloc_within_limit_c04
 #print axioms free_list_wellformed_in_tx
 #print axioms rollback_restores
+#print axioms c04_alloc_fresh
+#print axioms c04_owned_never_returned
+#print axioms c04_content_only_by_write
+#print axioms c04_content_only_by_write_abort
+#print axioms c04_content_only_by_write_failed
+#print axioms c04_history_alloc_fresh_partial
